@@ -27,15 +27,36 @@ MANIFEST = {
 # ---- relay side ---------------------------------------------------------------------------------------------------
 class RelayBP(relayh.Relay):
   def on_new_state(self):
+    trace = list(self.applied)
     v = relayh.Relay.on_new_state(self)      # quiesce + delivery liveness
     if v:
       return v
+    v = self.paused_check('all destinations reachable')
+    if v:
+      return v
+    # the same state, but one destination becomes unreachable for good (dynamic router)
+    if self.p.get('dynamic') and self.ndest >= 2:
+      for i, d in enumerate(self.dests):
+        self.reset()
+        for ev in trace:
+          if self.apply(ev):
+            raise core.HarnessError('history no longer replays')
+        v = self.quiesce(down=(d,))
+        if v:
+          return v
+        v = self.paused_check('destination %r unreachable for good' % (d,))
+        if v:
+          return v
+    return None
+
+  def paused_check(self, env_desc):
     if self.state.metricReceiversPaused:
       qs = {d[2]: len(self.q[d]) for d in self.dests}
       routed = len(self.member)
-      if routed and all(n < self.low_watermark for n in qs.values()):
-        return ('lost-wakeup:relay', 'quiescent (all destinations connected, timers exhausted) with receivers still paused; '
-                'queue lengths %r, low watermark %r, cacheTooFull=%r' % (qs, self.low_watermark, self.state.cacheTooFull))
+      if routed and all(len(self.q[d]) < self.low_watermark for d in self.member):
+        return ('lost-wakeup:relay', 'quiescent (%s, timers exhausted) with receivers still paused; queue lengths %r, usable '
+                'destinations %r, low watermark %r, cacheTooFull=%r' % (env_desc, qs, sorted(d[2] for d in self.member),
+                                                                       self.low_watermark, self.state.cacheTooFull))
     for p, t in self.receivers:
       if (t.producerState != 'producing') != bool(self.state.metricReceiversPaused):
         return ('receiver-out-of-step', 'at quiescence a receiver is %s while metricReceiversPaused=%r' % (
@@ -62,6 +83,9 @@ def relay_configs(ctx):
            (3, 0.8, 2, 1, True), (4, 0.5, 10, 1, False), (4, 0.8, 1, 2, False), (1, 0.5, 2, 2, False), (2, 0.8, 1, 1, False),
            (4, 0.5, 5, 1, True), (2, 0.5, 5, 3, True)]
   cfgs = []
+  # a destination that fills up, is declared down and stays away (few event kinds, one metric, deeper)
+  cfgs.append({'max_queue': 1, 'low_pct': 0.8, 'batch': 1, 'ndest': 2, 'dynamic': True, 'flow': True, 'protocol': 'pickle',
+               'receivers': False, 'stop': False, 'hp': False, 'metrics': ('b',), 'deep': 6})
   for mq, low, batch, nd, dyn in out:
     cfgs.append({'max_queue': mq, 'low_pct': low, 'batch': batch, 'ndest': nd, 'dynamic': dyn, 'flow': True,
                  'protocol': 'pickle', 'receivers': True, 'stop': False, 'hp': False,
@@ -268,6 +292,8 @@ def run(ctx):
   cfgs = core.seeded_order(relay_configs(ctx), ctx.seed)
 
   def depth_for(c):
+    if c.get('deep'):
+      return c['deep'] + (1 if ctx.thorough else 0)
     base = 6 if c['ndest'] == 1 else 5
     return base + (1 if ctx.thorough and c['ndest'] < 3 else 0) - (1 if c['ndest'] == 3 else 0)
   res = core.pmap(relay_job, [(c, depth_for(c)) for c in cfgs], fresh=True)
